@@ -643,6 +643,11 @@ impl Case {
             join(&l, ",")
         };
         let dberr = |stage: &str, e: String| format!("res=dberr@{}:{} nrej= erej=", stage, e.replace(' ', "_"));
+        // as `synchronise_day` does since findings/C02-deletion-of-other-room.patch: the records that do not name the
+        // synchronised room are dropped from the answer (the `rsync` ops run the real function)
+        let mut p = p;
+        p.edels.retain(|d| d.room_id.eq(&room_id));
+        p.ndels.retain(|d| d.room_id.eq(&room_id));
         if !p.edels.is_empty() {
             let v = match sigsvc.verify_edge_log(p.edels).await {
                 Ok(v) => v,
